@@ -70,8 +70,8 @@ func H20a() {
 	n, p := param("n"), param("p")
 	prefix := h20Bytes(p)
 	text := h20Bytes(n)
-	c1 := concretize(symInt(0, n))
-	c2 := concretize(symInt(0, n))
+	c1 := symRange(0, n)
+	c2 := symRange(0, n)
 	assume(c1 <= c2)
 	rec := &h20Rec{}
 	w := NewWriter(rec, string(prefix))
@@ -108,12 +108,12 @@ func H20b() {
 	n, p := param("n"), param("p")
 	prefix := h20Bytes(p)
 	text := h20Bytes(n)
-	c1 := concretize(symInt(0, n))
+	c1 := symRange(0, n)
 	model, payload := h20Model(prefix, text)
 	model1, _ := h20Model(prefix, text[:c1])
 	out1 := len(model1)
 	total := len(model)
-	budget := concretize(symInt(0, (p+1)*n))
+	budget := symRange(0, (p+1)*n)
 	assume(budget < total)
 	assume(out1 <= budget) // the first chunk is accepted entirely
 	lw := &h20Lim{budget: budget}
